@@ -63,3 +63,9 @@ Proof.
     assert (Ep : parse (filter keep items) = Some cst) by (apply parse_spec; auto).
     rewrite Ep, Hv. reflexivity.
 Qed.
+
+(* the same for the whole compiler model (front end + compile_program + the compiler's own refusal) *)
+From YP Require Import Lang.FrontCompile.
+
+Theorem compile_front_rejects_non_sentences s : ~ sentence s -> compile_front s = None.
+Proof. intros H. unfold compile_front. rewrite (front_rejects_non_sentences s H). reflexivity. Qed.
